@@ -187,8 +187,8 @@ def run_case(case):
                         "foreign": not m.input_type.lstrip(".").startswith(pkg + ".")})
     script = {"root_pkg": apigen.lib_root(api.info, api.options), "methods": methods}
     ev, rc, err = pipeline.run_runner("checks.c05", script, lib, timeout=400)
-    if ev is None or "runner_crash" in ev:
-        return {"verdict": "inconclusive", "why": f"runner rc={rc} {err[-600:]} {str(ev)[:1500]}"}
+    if ev is None or "runner_crash" in ev or "library_import_error" in ev:
+        return pipeline.runner_failed_result(ev, rc, err, api)
     viol, counters, sigs = [], {}, set()
 
     def bump(k, n=1):
